@@ -58,7 +58,7 @@ func run[E any, P fields.Ptr[E]](c *mon.Ctx, f *fields.Field[E, P]) {
 		return
 	}
 	if *mode == "all" {
-		L := fields.Lattice(f, rng, c.Pick(20, 200), c.Thorough())
+		L := fields.Lattice(f, rng, c.Pick(20, 1000), c.Thorough())
 		// ---------- A. round trips of elements ----------
 		seenRT := map[string]bool{}
 		roundtrip := func(i int, v *big.Int, cls string) {
@@ -206,7 +206,7 @@ func run[E any, P fields.Ptr[E]](c *mon.Ctx, f *fields.Field[E, P]) {
 		}
 		addI(rng.BigBits(1000))
 		addI(rng.BigBits(4000))
-		for k := 0; k < c.Pick(20, 300); k++ {
+		for k := 0; k < c.Pick(20, 3000); k++ {
 			addI(rng.BigBits(1 + rng.Intn(2*8*nb)))
 		}
 		for ii, v := range ints {
